@@ -46,7 +46,7 @@ from rv.ref.c22_ulpiphy import ULPIPhy, act_receive, act_rxcmds, rxcmd, TX as PH
 from rv.checks.c22 import make_ulpi, ResProxy, CTL_FIELDS, CTL_QUIET, function_control, otg_control
 
 PROPERTY = "C24"
-CASES = {"quick": 320, "thorough": 5000}
+CASES = {"quick": 480, "thorough": 7200}
 RULE = ("case = up to 14 episodes (single / multi / double / revert / under_dir / tx_coincide / traffic) of control-input "
         "changes, transmissions and PHY DIR activity on one UTMITranslator + PHY register file, each followed by a bounded "
         "convergence check; non-trivial = >=1 write aborted by DIR or >=1 change with a write in flight, and >=3 converged "
@@ -55,7 +55,7 @@ REQUIRED_BINS = ["ep_single", "ep_multi", "ep_double", "ep_revert", "ep_under_di
                  "converged_episode", "change_inside_tx_body", "write_aborted_at_command", "write_aborted_before_data",
                  "write_aborted_by_dir", "write_aborted_in_stp_cycle", "change_while_write_in_flight", "change_same_cycle_as_tx_start",
                  "regwrite_startable_while_txcmd_pending", "tx_waits_for_regwrite", "both_registers_pending", "with_rst_pin",
-                 "reg_data_nxt_throttled", "change_of_0x04_while_0x0a_in_flight", "revert_before_data_byte", "extra_register"]
+                 "reg_data_nxt_throttled", "change_of_0x04_while_0x0a_in_flight", "revert_before_data_byte", "extra_register", "initial_random", "initial_near_reset"]
 REQUIRED_EVENTS = ["writes_committed", "writes_value_checked", "convergence_checks", "tx_packets_completed", "progress_cycles_watched",
                    "control_changes"]
 ASSUMPTIONS = ["eventually = within 300 bus-free cycles (convergence) / 150 bus-free cycles (progress)",
@@ -112,10 +112,24 @@ def _run_case(rng, tier, res):
     res.desc = {"with_rst": with_rst, "startup": startup, "cmd_latency": lat, "reg_nxt": reg_nxt, "tx_nxt": tx_nxt, "episodes": []}
     res.sig(with_rst, startup, lat, reg_nxt, tx_nxt)
 
-    ctl = dict(CTL_QUIET)
-    if rng.random() < 0.5:
+    ctl = dict(CTL_QUIET)               # = the PHY's reset values: nothing has to be written after start-up
+    r0 = rng.random()
+    if r0 < 0.3:
         ctl = {name: rng.randrange(1 << w) for name, w in CTL_FIELDS}
         ctl["op_mode"] = rng.choice([0, 0, 2])
+        res.bin("initial_random")
+    elif r0 < 0.5:
+        # one register differs from its reset value in one or two bits only (a link that assumes a wrong reset value, or
+        # forgets the initial write, stays different for ever)
+        which = rng.choice(["otg_zero", "fc_40", "one_field"])
+        if which == "otg_zero":
+            ctl["dp_pulldown"] = ctl["dm_pulldown"] = 0
+        elif which == "fc_40":
+            ctl["xcvr_select"] = 0
+        else:
+            name, w = CTL_FIELDS[rng.randrange(len(CTL_FIELDS))]
+            ctl[name] ^= 1
+        res.bin("initial_near_reset")
 
     # ------------------------------------------------------------------ per-cycle history (index = cycle)
     addrs = [0x04, 0x0A] + sorted(extra)
@@ -522,9 +536,12 @@ def classify(res, raw, phy, req, regs_hist, change_cycles, st, tx_rises, startup
         return any(regs_hist[a][c] != req[a][c] for a in req)
 
     accepts = sorted([p["accept"] for p in phy.tx_packets] + ([phy.pkt["accept"]] if phy.pkt else []))
+    # cycles (bench convention: index of the clock edge that ends the cycle) in which a register write can become startable:
+    # a control input changes; two cycles after a commit (`done` has passed) with another difference queued; the cycle after a
+    # transmit packet's STP; the end of the start-up delay
     events = set(change_cycles)
     for w in phy.reg_writes:
-        events.update((w[0], w[0] + 1, w[0] + 2))
+        events.update((w[0] + 1, w[0] + 2))
     for p in phy.tx_packets:
         if p["stp_cycle"]:
             events.update((p["stp_cycle"] + 1, p["stp_cycle"] + 2))
@@ -532,9 +549,10 @@ def classify(res, raw, phy, req, regs_hist, change_cycles, st, tx_rises, startup
         events.update(range(startup, startup + 5))
     triggers = []
     for t0 in tx_rises:
+        # the TXCMD is pending from the cycle tx_valid rises (t0) up to and including the cycle the PHY accepts it (a)
         a = min([x for x in accepts if x >= t0] or [last_cycle])
         for e in sorted(events):
-            if t0 - 1 <= e <= a + 1 and (pending_at(e) or pending_at(e + 1)):
+            if t0 <= e <= a and pending_at(e):
                 triggers.append(e)
                 break
     for (mech, k, detail) in raw:
